@@ -265,6 +265,119 @@ theorem steps_recv_empty (s : Sock) (hudp : s.tcp = false) (size : Option Nat) (
     ?_, ⟨h.faults, h.isOpen, h.queue, by simp [sentOf_append, sentOf, h.sent]⟩⟩
   simp only [recv, hq, hudp, Bool.false_eq_true, ↓reduceIte]
 
+/-! ### units made of one exchange -/
+
+/-- send the request, receive one datagram, check it -/
+def exchange1 {α : Type} (s : Sock) (req : Bytes) (size : Nat) (check : Bytes → Res α) : Q α :=
+  send s req >>= fun _ => recv s (some size) >>= fun d => Q.lift (check d)
+
+theorem attemptError_timeout (f : Bool) : (Faults.attemptError f).isTimeout = true := by
+  cases f <;> rfl
+
+/-- one failed attempt of a one-exchange unit -/
+theorem steps_exchange1_fail {α : Type} (s : Sock) (req : Bytes) (size : Nat) (check : Bytes → Res α) (f : Bool)
+    (q : List Delivery) (fs : List Bool) (sn : List (Bytes × Bool)) :
+    Steps s (exchange1 s req size check) (.err (Faults.attemptError f))
+      ⟨(if f then [] else [Delivery.silence]) ++ q, [f] ++ fs, sn⟩ ⟨q, fs, sn ++ [(req, f)]⟩ := by
+  unfold exchange1
+  cases f with
+  | true => exact Steps.bind_err (steps_send_fault s req q fs sn)
+  | false =>
+    exact Steps.bind (steps_send_ok s req _ fs sn) (Steps.bind_err (steps_recv_silence s _ q fs _))
+
+/-- the attempt that is answered by the datagram `d` -/
+theorem steps_exchange1_answer {α : Type} (s : Sock) (hudp : s.tcp = false) (req : Bytes) (size : Nat)
+    (check : Bytes → Res α) (d : Bytes) (hl : d.length ≤ size) (q : List Delivery) (fs : List Bool)
+    (sn : List (Bytes × Bool)) :
+    Steps s (exchange1 s req size check) (check d) ⟨[.data d] ++ q, [false] ++ fs, sn⟩ ⟨q, fs, sn ++ [(req, false)]⟩ := by
+  unfold exchange1
+  exact Steps.bind (steps_send_ok s req _ fs sn) (Steps.bind (steps_recv s hudp size d hl q fs _) (Steps.lift s _ _))
+
+theorem flatMap_singleton {α β : Type} (g : α → β) (l : List α) : l.flatMap (fun a => [g a]) = l.map g := by
+  induction l with
+  | nil => rfl
+  | cons a r ih => simp [List.flatMap_cons, ih]
+
+/-- A one-exchange unit under `retry_on_timeout` on the script of a plan in C10's domain: the outcome is the plan's
+(`check` of the answer — which is never retried — after at most `retries` failures, or the last failure's error after
+`retries + 1`), exactly the plan's deliveries and flags are consumed, exactly its requests sent; anything may follow. -/
+theorem steps_exchange1_plan {α : Type} (s : Sock) (hudp : s.tcp = false) (req : Bytes) (size : Nat)
+    (check : Bytes → Res α) (retries : Nat) (p : Faults.Plan1) (hp : p.wf retries size = true)
+    (hcheck : ∀ d k, p.answer = some d → check d = .err k → k.isTimeout = false)
+    (q : List Delivery) (fs : List Bool) (sn : List (Bytes × Bool)) :
+    Steps s (retryOnTimeout retries (exchange1 s req size check)) (p.outcome check)
+      ⟨p.deliveries ++ q, p.faults ++ fs, sn⟩ ⟨q, fs, sn ++ p.sends req⟩ := by
+  obtain ⟨fails, answer⟩ := p
+  have hflat : fails.flatMap (fun f => [f]) = fails := flatMap_singleton id fails |>.trans (List.map_id _)
+  have hmap : fails.flatMap (fun f => [(req, f)]) = fails.map fun f => (req, f) := flatMap_singleton _ fails
+  cases answer with
+  | some d =>
+    simp only [Faults.Plan1.wf, Bool.and_eq_true, decide_eq_true_eq] at hp
+    have h := Steps.retry_recovers (f := exchange1 s req size check)
+      (fun f : Bool => if f then [] else [Delivery.silence]) (fun f => [f]) (fun f => [(req, f)]) Faults.attemptError
+      attemptError_timeout (fun a q fs sn => steps_exchange1_fail s req size check a q fs sn)
+      (R := check d) (fun k hk => hcheck d k rfl hk) ([.data d] ++ q) q ([false] ++ fs) fs [(req, false)]
+      (fun sn => steps_exchange1_answer s hudp req size check d hp.2 q fs sn) fails retries sn hp.1
+    rw [hflat, hmap] at h
+    simpa [Faults.Plan1.deliveries, Faults.Plan1.faults, Faults.Plan1.sends, Faults.Plan1.outcome,
+      List.append_assoc] using h
+  | none =>
+    simp only [Faults.Plan1.wf, beq_iff_eq] at hp
+    have h := Steps.retry_exhausted (f := exchange1 s req size check)
+      (fun f : Bool => if f then [] else [Delivery.silence]) (fun f => [f]) (fun f => [(req, f)]) Faults.attemptError
+      attemptError_timeout (fun a q fs sn => steps_exchange1_fail s req size check a q fs sn) q fs retries fails sn hp
+    rw [hflat, hmap] at h
+    simpa [Faults.Plan1.deliveries, Faults.Plan1.faults, Faults.Plan1.sends, Faults.Plan1.outcome] using h
+
+/-- A whole query of the shape "open a UDP socket, run a one-exchange unit under `retry_on_timeout`, decode": on the
+script of a plan (followed by anything) its result is the plan's outcome passed to the decoder, and what it sent are the
+plan's requests. -/
+theorem query1_plan {α β : Type} (port retries : Nat) (req : Bytes) (size : Nat) (check : Bytes → Res α)
+    (k : α → Res β) (p : Faults.Plan1) (hp : p.wf retries size = true)
+    (hcheck : ∀ d e, p.answer = some d → check d = .err e → e.isTimeout = false)
+    (restQ : List Delivery) (restF : List Bool) :
+    ((openSock false port >>= fun s =>
+        retryOnTimeout retries (exchange1 s req size check) >>= fun a => Q.lift (k a))
+      (Net.init [.opened (p.deliveries ++ restQ)] (p.faults ++ restF))).1 = (p.outcome check >>= k)
+    ∧ sentOf ((openSock false port >>= fun s =>
+        retryOnTimeout retries (exchange1 s req size check) >>= fun a => Q.lift (k a))
+      (Net.init [.opened (p.deliveries ++ restQ)] (p.faults ++ restF))).2.log = p.sends req := by
+  rw [Q.bind_apply]
+  have ho : openSock false port (Net.init [.opened (p.deliveries ++ restQ)] (p.faults ++ restF))
+      = (.ok ⟨0, port, false⟩, ⟨[], [p.deliveries ++ restQ], p.faults ++ restF, [.opened 0 false port false]⟩) := rfl
+  rw [ho]
+  have h := (Steps.bind_res (k := k) (g := fun a => Q.lift (k a))
+    (steps_exchange1_plan ⟨0, port, false⟩ rfl req size check retries p hp hcheck restQ restF [])
+    (fun a _ => Steps.lift _ _ _)).outcome
+    ⟨[], [p.deliveries ++ restQ], p.faults ++ restF, [.opened 0 false port false]⟩ ⟨rfl, by simp, by simp, rfl⟩
+  simpa using h
+
+/-- every datagram sent is the request; there are as many as attempts -/
+theorem Plan1.sends_length (req : Bytes) (p : Faults.Plan1) : (p.sends req).length = p.attempts := by
+  obtain ⟨fails, answer⟩ := p
+  cases answer <;> simp [Faults.Plan1.sends, Faults.Plan1.attempts]
+
+theorem Plan1.sends_all (req : Bytes) (p : Faults.Plan1) : ∀ e ∈ p.sends req, e.1 = req := by
+  obtain ⟨fails, answer⟩ := p
+  intro e he
+  cases answer with
+  | none =>
+    simp only [Faults.Plan1.sends, List.append_nil, List.mem_map] at he
+    obtain ⟨f, _, rfl⟩ := he; rfl
+  | some d =>
+    simp only [Faults.Plan1.sends, List.mem_append, List.mem_map, List.mem_singleton] at he
+    rcases he with ⟨f, _, rfl⟩ | rfl <;> rfl
+
+/-- the last of `r + 1` timeout-class failures decides between `PacketReceive` and `PacketSend` -/
+theorem lastError_attempt (fails : List Bool) (f : Bool) :
+    Faults.lastError Faults.attemptError (fails ++ [f]) = (if f then .packetSend else .packetReceive) := by
+  induction fails with
+  | nil => rfl
+  | cons b r ih =>
+    cases r with
+    | nil => rfl
+    | cons c r' => simpa [Faults.lastError] using ih
+
 /-! ### computations that only receive: independent of the fault flags, nothing sent -/
 
 /-- `f` neither reads nor changes the send-fault flags, and sends nothing -/
